@@ -238,6 +238,15 @@ def build():
     one(r"Ttl::from_secs\(\s*\(u32::from\(self\.ext_rcode\)\s*<<\s*24\)\s*\|\s*\(u32::from\(self\.version\)\s*<<\s*16\)\s*\|\s*u32::from\(self\.flags\),?\s*\)", opt, "OptRecord::as_record TTL packing")
     defs.append(("opt_clone_from_anchored", "bool", "true"))
 
+    # ---- RecordSectionBuilder: the trait impl of every record section is that section's own push
+    impls = re.findall(r"impl<[^>]*>\s*RecordSectionBuilder<Target>\s*for\s+(\w+)<Target>\s*(?:where[^{]*)?\{\s*fn push\(&mut self, record: impl ComposeRecord\)\s*->\s*Result<\(\), PushError>\s*\{\s*([^}]*?)\s*\}\s*\}", src)
+    if sorted(x[0] for x in impls) != ["AdditionalBuilder", "AnswerBuilder", "AuthorityBuilder"]:
+        raise GenError("RecordSectionBuilder impls changed: %r" % [x[0] for x in impls])
+    for who, body in impls:
+        if not re.fullmatch(r"Self::push\(self, record\)", body.strip()):
+            raise GenError("RecordSectionBuilder for %s: push is no longer Self::push(self, record): %r" % (who, body))
+    defs.append(("section_trait_push_is_own_push", "bool", "true"))
+
     # ---- HashCompressor: entry and query hash the same (label, tail) pair, the rehash closure
     #      re-reads the label from the message, Label::hash feeds length + lower-cased octets
     one(r"fn hash\(&self, message: &\[u8\], hasher: &DefaultHashBuilder\)\s*->\s*u64\s*\{\s*hasher\.hash_one\(\(self\.head\(message\), self\.tail\)\)\s*\}", src, "HashEntry::hash")
